@@ -52,3 +52,8 @@ def run(ctx):
     from . import c11 as _c11
 
     _c11.refinement(ctx)  # barycentric spaces live on the barycentric grid: its children, midpoints and inherited domain indices
+    from .. import dtypes as _dt
+    from . import c10 as _c10
+
+    _dt.promote_double(ctx)  # (tools/wiring.py) sparse values pass through the promotion helper
+    _c10.compat(ctx)
